@@ -35,6 +35,9 @@ func (e *engine) newFnCtx(fn *ssa.Function, blk *block, name string) *fnCtx {
 // verifyFunc generates the obligations of one function under contract.
 func (e *engine) verifyFunc(fn *ssa.Function, blk *block) (res *fnResult) {
 	name := canonName(fn)
+	if blk != nil && baseFuncName(blk.name) == name {
+		name = blk.name // "f#view": a further contract block for the same function
+	}
 	res = &fnResult{name: name}
 	fc := e.newFnCtx(fn, blk, name)
 	defer func() {
